@@ -11,7 +11,7 @@ from hypothesis import strategies as st
 MNEMONICS = [
     "mov", "movl", "movq", "cmov", "cmovne", "add", "addl", "adc", "sub", "call", "callq", "ret", "retq",
     "nop", "nopw", "push", "pop", "jmp", "jne", "je", "xor", "or", "lea", "cmp", "test", "dec", "inc", "and",
-    "shl", "shr", "sar", "leave", "cltq", "imul", "bad", "fadd",
+    "shl", "shr", "sar", "leave", "cltq", "imul", "bad", "fadd", "vblendvpd", "vfmadd231sd",
 ]
 OPERANDS = [
     ("%rax", "%rax"), ("%eax", "%eax"), ("%ax", "%ax"), ("%al", "%al"), ("%ah", "%ah"),
@@ -51,7 +51,7 @@ def instruction_body(draw):
         return (m, [f"{t} <f+0x{t}>"], [t])
     if m in ("ret", "retq", "leave", "cltq", "nop", "bad") and draw(st.integers(0, 4)) > 0:
         return (m, [], [])
-    n = draw(st.sampled_from([0, 1, 1, 2, 2, 2, 3]))
+    n = draw(st.sampled_from([0, 1, 1, 2, 2, 2, 2, 3, 3, 4, 5]))
     ops = [draw(operand()) for _ in range(n)]
     return (m, [o[0] for o in ops], [o[1] for o in ops])
 
@@ -80,3 +80,25 @@ def att_view(L):
 
 def norm_view(L):
     return [(a, m, on) for a, m, oa, on in L]
+
+
+def parse_norm_mem(op):
+    """'[%rbx+%rax*4+0x10]' -> {'a':'%rbx','b':'%rax','c':'4','k':'0x10'} (absent keys omitted); None if not a memory operand
+    of the shapes in the vocabulary table."""
+    if not (op.startswith("[") and op.endswith("]")):
+        return None
+    parts = op[1:-1].split("+")
+    out = {}
+    if not parts or not parts[0]:
+        return None  # no base register: cannot be written as $deref (main_reg is mandatory)
+    out["a"] = parts[0]
+    rest = parts[1:]
+    if rest and "*" in rest[0]:
+        b, c = rest[0].split("*")
+        out["b"], out["c"] = b, c
+        rest = rest[1:]
+    if rest:
+        if len(rest) != 1:
+            return None
+        out["k"] = rest[0]
+    return out
